@@ -1,6 +1,7 @@
 package props
 
 import (
+	"go/types"
 	"fmt"
 	"go/token"
 	"sort"
@@ -167,5 +168,39 @@ func runNDPSiblings(c *Ctx) {
 		r.Add(core.Obligation{Rule: "ndp-siblings", Key: "ndp-siblings " + n, Func: core.FuncName(sd.uf), Pos: c.P.Pos(sd.uf.Pos()), Status: st,
 			Basis: "big-endian integer windows (offsets from the start of the option): " + render(sd.m),
 			Detail: fmt.Sprintf("%s.marshal writes its integers at %s of the option, %s.unmarshal reads them at %s: what the library reads from a received option is not the field the sender (and RFC 4861/4191/8106) put there", n, render(sd.m), n, render(sd.u))})
+	}
+}
+
+// runNDPWideArith: lengths in NDP options are counted in units of 8 bytes in a one-byte field; multiplying that
+// byte by 8 in uint8 arithmetic wraps from length 32 (256 bytes) on. Every multiplication / left shift of a
+// non-constant one-byte value by a constant in the option code must be done after widening.
+func runNDPWideArith(c *Ctx) {
+	r := c.R
+	r.Rule("wide-arith", "one-byte length fields are widened before they are multiplied", 0)
+	for _, fn := range c.P.LibFunctions() {
+		if !strings.HasPrefix(c.P.Pos(fn.Pos()), "layer_icmp6_options.go:") {
+			continue
+		}
+		kg := core.NewKeyGen()
+		core.EachInstr(fn, func(i ssa.Instruction) {
+			bo, ok := i.(*ssa.BinOp)
+			if !ok || bo.Op != token.MUL { // shifts pack flag bits into a byte; only products are lengths
+				return
+			}
+			bt, isB := bo.Type().Underlying().(*types.Basic)
+			if !isB || (bt.Kind() != types.Uint8 && bt.Kind() != types.Int8) {
+				return
+			}
+			k, isC := bo.Y.(*ssa.Const)
+			if _, xc := bo.X.(*ssa.Const); xc || !isC || k.Value == nil {
+				return
+			}
+			if k.Int64() < 2 {
+				return
+			}
+			key := strings.TrimSuffix(kg.Key("wide-arith "+core.FuncName(fn)+" "+norm(bo)), "#0")
+			r.Add(core.Obligation{Rule: "wide-arith", Key: key, Func: core.FuncName(fn), Pos: c.P.Pos(core.PosOf(i)), Status: core.Violated,
+				Detail: norm(bo) + " is computed in 8-bit arithmetic: for a length field of 32 or more (an option of 256 bytes or more) the product wraps, so a long well-formed option is rejected or a wrong length is accepted"})
+		})
 	}
 }
